@@ -311,6 +311,11 @@ func genNameChangingPasses(r *Rand, schemas ast.Schemas) []PassSpec {
 			ps.To = p.Name + "." + Pick(r, p.Objects).Name
 		case "rename_object":
 			ps.To = fmt.Sprintf("%s%d", ps.To, i)
+			if pkg, obj, ok := strings.Cut(ps.Obj, "."); ok && pkg != "" && r.Side("pkg-case").Chance(1, 5) {
+				// the package spelled in another letter case: packages match exactly, so
+				// this names nothing - and must then change nothing
+				ps.Obj = strings.ToUpper(pkg[:1]) + pkg[1:] + "." + obj
+			}
 		case "duplicate_object":
 			ps.To = fmt.Sprintf("%s%d", ps.To, i)
 			ps.OmitFields = nil
